@@ -17,6 +17,11 @@ import (
 var vfC10MACs = func() (macs []string) {
 	for i := 1; i <= 10; i++ {
 		macs = append(macs, fmt.Sprintf("02:00:00:00:00:%02x", i))
+		if i == 1 || i == 3 {
+			// an EUI-64 address (hlen 8) that starts like the 6-byte address
+			// of another client
+			macs = append(macs, fmt.Sprintf("02:00:00:00:00:%02x:00:09", i))
+		}
 	}
 
 	return macs
